@@ -299,7 +299,7 @@ def keyset(n):
 
 def key_consts(keys, maxtime, cap=0, faults=False, emit=False):
     return {"Keys": keyset(keys), "MaxTime": maxtime, "Cap0": cap, "Faults": "TRUE" if faults else "FALSE",
-            "GetMode": '"get"', "CapMode": '"fixed"', "Emit": "TRUE" if emit else "FALSE"}
+            "GetMode": '"get"', "CapMode": '"fixed"', "ExportMode": '"fixed"', "Emit": "TRUE" if emit else "FALSE"}
 
 
 def ord_consts(keys, cap=0, writes=False, emit=False):
